@@ -403,7 +403,65 @@ func c15JSONSnaps(c *vkit.Ctx, r *rand.Rand, i int) {
 	}
 }
 
+// c15YAMLMultiPath: one Any matcher with 2-3 YAML paths at different depths and one
+// placeholder (scalar, map or slice): every listed path must be replaced.
+func c15YAMLMultiPath(c *vkit.Ctx, r *rand.Rand, i int) {
+	d := vkit.YAMLTreeDoc(r, 4)
+	text := vkit.YAMLFromTree(d)
+	docs, err := vkit.ParseYAMLDocs(text)
+	if err != nil || len(docs) != 1 || d.Equal(docs[0], true) != "" {
+		c.Count("premise_yaml_emitter_roundtrip_failed", 1)
+		return
+	}
+	var used []vkit.JPath
+	var paths []string
+	ph, phk := drawPlaceholder(r)
+	wantTree, _ := vkit.FromGo(ph)
+	exp := d.Clone()
+	for k := 0; k < 2+r.IntN(2); k++ {
+		p, ok := pickPath(r, d, func(p vkit.JPath) bool {
+			for _, q := range used {
+				if prefixRelated(p, q) {
+					return false
+				}
+			}
+			return true
+		})
+		if !ok {
+			break
+		}
+		used = append(used, p)
+		paths = append(paths, p.YAMLPath())
+		exp.Set(p, wantTree.Clone())
+	}
+	if len(paths) < 2 {
+		return
+	}
+	in := map[string]any{"sub": "yaml-direct-multi-path", "document": text, "paths": paths, "placeholder": ph}
+	out, errs := match.Any(paths...).Placeholder(ph).YAML([]byte(text))
+	c.Count("yaml_multipath_applications", 1)
+	if len(errs) > 0 {
+		c.Count("yaml_direct_matcher_reported_error", 1)
+		return
+	}
+	gd, err := vkit.ParseYAMLDocs(string(out))
+	if err != nil || len(gd) != 1 {
+		c.Violate("matcher-output-invalid-yaml", "", fmt.Sprintf("Any(%v) placeholder %s: output does not decode to one document (%v): %s", paths, phk, err, vkit.Q(string(out))), in)
+		return
+	}
+	if diff := exp.Equal(gd[0], true); diff != "" {
+		c.Violate("multi-path-matcher-changed-other-than-targets", "", fmt.Sprintf("YAML Any(%v) placeholder %s: differs from the model at %s; output %s", paths, phk, diff, vkit.Q(string(out))), in)
+		return
+	}
+	c.Count("yaml_placeholder:"+phk, 1)
+	c.Case(vkit.Hash("ym", text, fmt.Sprint(paths), phk), true)
+}
+
 func c15YAMLDirect(c *vkit.Ctx, r *rand.Rand, i int) {
+	if i%12 == 2 {
+		c15YAMLMultiPath(c, r, i)
+		return
+	}
 	d := vkit.YAMLTreeDoc(r, 3)
 	text := vkit.YAMLFromTree(d)
 	if r.IntN(3) == 0 {
